@@ -166,7 +166,7 @@ theorem step_PS (w : World) (ctx : StepCtx) (step : Outbound.Step) (now : Nat) :
     Outcome (.PS w ctx step now) := by
   cases hp : prepareStep w step with
   | fail e =>
-    exact .done _ (Final.finishErr (.PS w ctx step now) (Rel.refl w) (ctxName ctx) e)
+    exact .done _ (Final.finishErr (.PS w ctx step now) ((Rel.refl w).discFail ctx) (ctxName ctx) e)
       (fun m => by simp only [Call.run, performStep, hp])
   | done =>
     refine .call (.SR w ctx false) ⟨?_, Rel.refl _, fun hs => .inl ⟨?_, hs.2⟩⟩
@@ -176,7 +176,7 @@ theorem step_PS (w : World) (ctx : StepCtx) (step : Outbound.Step) (now : Nat) :
   | flush pkt =>
     cases hl : w.live with
     | false =>
-      exact .done _ (Final.finishErr (.PS w ctx step now) (Rel.refl w) (ctxName ctx) .disconnected)
+      exact .done _ (Final.finishErr (.PS w ctx step now) ((Rel.refl w).discFail ctx) (ctxName ctx) .disconnected)
         (fun m => by simp [Call.run, performStep, hp, hl])
     | true =>
       refine .call (.DSF w ctx pkt now) ⟨?_, Rel.refl _, fun hs => .inl ⟨?_, hs.2⟩⟩
@@ -186,7 +186,7 @@ theorem step_PS (w : World) (ctx : StepCtx) (step : Outbound.Step) (now : Nat) :
   | write pkt bytes written len =>
     cases hl : w.live with
     | false =>
-      exact .done _ (Final.finishErr (.PS w ctx step now) (Rel.refl w) (ctxName ctx) .disconnected)
+      exact .done _ (Final.finishErr (.PS w ctx step now) ((Rel.refl w).discFail ctx) (ctxName ctx) .disconnected)
         (fun m => by simp [Call.run, performStep, hp, hl])
     | true =>
       refine .call (.DSW w ctx pkt bytes written len now) ⟨?_, Rel.refl _, fun hs => .inl ⟨?_, hs.2⟩⟩
@@ -197,7 +197,7 @@ theorem step_PS (w : World) (ctx : StepCtx) (step : Outbound.Step) (now : Nat) :
 theorem step_FL (w : World) (k : AfterFlush) : Outcome (.FL w k) := by
   cases hq : w.maybeQueuePingreq w.now with
   | error e =>
-    exact .done _ (Final.finishErr (.FL w k) (Rel.refl w) (afterFlushName k) e)
+    exact .done _ (Final.finishErr (.FL w k) ((Rel.refl w).discFail (.flush k)) (afterFlushName k) e)
       (fun m => by simp only [Call.run, flushLoop, hq])
   | ok w1 =>
     have hp := maybeQueuePingreq_pure hq
@@ -241,7 +241,7 @@ theorem step_DSW (w : World) (ctx : StepCtx) (pkt : Flushed) (bytes : Bytes) (wr
       exact .done _ (Final.suspend (.DSW w ctx pkt bytes written len now) io.rel (.stepWrite ctx pkt bytes written len now))
         (fun m => by simp only [Call.run, doStepWrite, hio])
     | zero =>
-      exact .done _ (Final.finishErr (.DSW w ctx pkt bytes written len now) io.rel (ctxName ctx) .writeZero)
+      exact .done _ (Final.finishErr (.DSW w ctx pkt bytes written len now) (io.rel.discFail ctx) (ctxName ctx) .writeZero)
         (fun m => by simp only [Call.run, doStepWrite, hio])
     | err k =>
       exact .done _ (Final.finishErr (.DSW w ctx pkt bytes written len now) io.rel.handleDisconnect (ctxName ctx) (.transport k))
